@@ -631,7 +631,7 @@ func init() {
 		MaxDepth: 2, MaxElems: 4, AcqW: [3]int{8, 1, 1},
 	}
 	postGen := &GenCfg{
-		W:       map[string]int{"app": 6, "set": 4, "rem": 6, "appN": 2, "remN": 2, "mset": 8, "mrem": 6, "msetN": 2, "mremN": 2, "pop": 1, "mpop": 1, "commit": 1, "reopen": 1},
+		W:       map[string]int{"app": 6, "set": 4, "rem": 6, "appN": 2, "remN": 2, "mset": 8, "mrem": 6, "msetN": 2, "mremN": 2, "pop": 1, "mpop": 1, "commit": 1, "reopen": 1, "styp": 3},
 		MaxBulk: 30, ValW: map[string]int{"u": 6, "s1": 3, "s5": 1, "arr": 1}, MaxDepth: 1, MaxElems: 3, AcqW: [3]int{8, 1, 1},
 	}
 	register(&PropDef{
